@@ -260,6 +260,8 @@ func (s *Species) reproduce(ctx context.Context, generation int, pop *Population
 		return nil, errors.New("attempt to reproduce out of empty species")
 	}
 
+	verifReproduceStart(s, pop, generation)
+
 	// The number of Organisms in the old generation
 	poolSize := len(s.Organisms)
 	// The champion of the 'this' specie is the first element of the specie;
@@ -521,6 +523,7 @@ func (s *Species) reproduce(ctx context.Context, generation int, pop *Population
 		babies = append(babies, baby)
 
 	} // end for count := 0
+	verifReproduceEnd(s, pop, babies)
 	return babies, nil
 }
 
